@@ -1,14 +1,84 @@
 (* C10 — Rich-data serialization round-trips under every option and consumer capability.
-   ONLY statements; proofs in Proofs/SerProofs.v.  Model: Model/Ser.v. *)
+   This file holds ONLY the statements of the property theorems, each closed by `exact <lemma>`, and
+   `Print Assumptions` beneath.  Model: Model/Ser.v (serialization/serializer.go, types/basiccollector.go,
+   serialization/deserializer.go).  Proofs: Proofs/SerProofs.v (simulation serializer state / collector
+   state), Proofs/SerWfProofs.v (stream well-formedness). *)
 From Coq Require Import ZArith NArith Bool List.
-From PcoreV Require Import Model.Base Model.Ser Proofs.SerProofs.
+From PcoreV Require Import Model.Base Model.Ser Proofs.SerProofs Proofs.SerWfProofs.
 Import ListNotations.
 
-(* With every back-reference resolved by the collector, the stream emitted under ANY options and
-   capabilities builds exactly the reference-free Data tree `image`: each AddRef n met a position n that was
-   already filled with the image of the value it stands for. *)
+(* ---- the stream is well formed: for EVERY value (no assumption on the identity tags) and every point of
+   {rich_data} x {local_reference} x {dedup_level} x {binary} x {complex keys} x {string threshold} ----
+   wf_stream (Model/Ser.v) checks on the event list: every AddRef n has n < number of positions produced
+   before it; every hash receives an even number of children; no Binary is added unless can_binary; without
+   can_complex_keys every hash key is a string delivered by Add (not a container, not a reference). *)
+Theorem C10_stream_wf :
+  forall (payload : Type) (to_s : str -> payload -> str) (o : opts) (c : caps) (x : @rvalue payload),
+    wf_stream (env_of o c) (serialize to_s o c x) = true.
+Proof. exact @stream_wf. Qed.
+Print Assumptions C10_stream_wf.
+
+(* refIndex stays in step with the consumer: after Convert it equals the number of positions (Add, AddArray,
+   AddHash events) the consumer received — for every value and all options. *)
+Theorem C10_refindex_counts_positions :
+  forall (payload : Type) (to_s : str -> payload -> str) (o : opts) (c : caps) (x : @rvalue payload),
+    ridx (fst (to_data to_s (env_of o c) lv x (mksctx [] 0))) = npos (serialize to_s o c x).
+Proof. exact @refindex_counts_positions. Qed.
+Print Assumptions C10_refindex_counts_positions.
+
+(* ---- every back-reference points to an earlier position that holds an equal value ----
+   The collector, which resolves AddRef n by looking at position n, builds from the stream emitted under
+   ANY options and capabilities exactly the reference-free Data tree `image`: each AddRef n met a position n
+   that was filled (not a container still open) with the image of the value it stands for.
+   wf_rich x: the identity tags of x name subtrees (same tag => same subtree; hence x is acyclic) — what Go
+   pointer identity of immutable values gives. *)
 Theorem C10_refs_resolve_to_equal_value :
-  forall (payload : Type) (to_s : str -> payload -> str) o c (x : @rvalue payload),
+  forall (payload : Type) (to_s : str -> payload -> str) (o : opts) (c : caps) (x : @rvalue payload),
     wf_rich x -> collect (serialize to_s o c x) = Ok (image to_s (env_of o c) x).
 Proof. exact @collect_serialize. Qed.
 Print Assumptions C10_refs_resolve_to_equal_value.
+
+(* the simulation invariant itself (DESIGN.md 5/C10): processing x from ANY pair of related states —
+   R: length positions = refIndex, and every entry (value -> index) of the values map points to a position
+   holding the image of that value, or belongs to a container that is still open (op) — delivers exactly
+   image x to the collector's current frame, only appends positions, and re-establishes R. *)
+Theorem C10_simulation :
+  forall (payload : Type) (to_s : str -> payload -> str) (e : env) (m : N -> @rvalue payload) (x : @rvalue payload)
+         (lvl : N) (op : list (N * nat)),
+    consistent m x -> below m x op ->
+    forall st pos, R to_s e m op st pos ->
+    exists st' evs new,
+      to_data to_s e lvl x st = (st', evs) /\
+      (forall cs, positions cs = pos -> crun cs evs = Ok (app_pos new (push (image to_s e x) cs))) /\
+      R to_s e m op st' (pos ++ new) /\ first_is new (image to_s e x).
+Proof. exact @to_data_spec. Qed.
+Print Assumptions C10_simulation.
+
+(* ---- non-vacuity: a value with a shared array, a shared string and a Sensitive, serialized with maximal
+   de-duplication to a consumer without binary/complex keys: the stream contains back-references, is well
+   formed, and the collector rebuilds the image. ---- *)
+Definition ex_shared : @rvalue str :=
+  VArr 1 [VArr 2 [VStr [97;98;99]%N; VInt 7]; VArr 2 [VStr [97;98;99]%N; VInt 7]; VSens 3 (VStr [97;98;99]%N);
+          VStr [97;98;99]%N]%N.
+Definition ex_m (i : N) : @rvalue str :=
+  if N.eqb i 1 then ex_shared
+  else if N.eqb i 2 then VArr 2 [VStr [97;98;99]%N; VInt 7]
+  else VSens 3 (VStr [97;98;99]%N).
+
+Example C10_ex_wf_rich : wf_rich ex_shared.
+Proof.
+  exists ex_m.
+  assert (Hstr : forall s, consistent ex_m (VStr s)) by (intros s; now apply consistent_untagged_leaf).
+  assert (Hint : forall z, consistent ex_m (@VInt str z)) by (intros z; now apply consistent_untagged_leaf).
+  assert (H2 : consistent ex_m (VArr 2 [VStr [97;98;99]%N; VInt 7])).
+  { apply consistent_arr; [reflexivity|]. repeat constructor; auto. }
+  apply consistent_arr; [reflexivity|]. repeat constructor; auto.
+  apply consistent_sens; [reflexivity|auto].
+Qed.
+
+Example C10_ex_stream :
+  serialize (fun _ p => p) (mkopts true true 2) (mkcaps false false 0) ex_shared =
+  [EArr 4; EArr 2; EAdd (DStr [97;98;99]%N); EAdd (DInt 7); EEnd; ERef 1;
+   EHash 2; EAdd (DStr ptype_key); EAdd (DStr t_sensitive); EAdd (DStr pvalue_key); ERef 2; EEnd;
+   ERef 2; EEnd].
+Proof. vm_compute. reflexivity. Qed.
